@@ -3,6 +3,7 @@ from __future__ import annotations
 
 import glob
 import os
+import re
 
 from hypothesis import strategies as st
 
@@ -79,7 +80,7 @@ def cfg_brushes(tier):
 
 
 def cfg_disps(tier):
-    return GenConfig(displacements=True, disp_weight=0.8, max_disp_power=2 if tier == 'quick' else 4, meta=False, membership=False,
+    return GenConfig(displacements=True, disp_weight=0.8, prism_weight=0.2, max_disp_power=2 if tier == 'quick' else 4, meta=False, membership=False,
                      max_ents=1, max_keys=1, max_outputs=0, max_fixups=0, max_world_solids=2, max_ent_solids=1, max_sides=3,
                      nasty=0.1, world_extras=False, nodeid=False)
 
@@ -185,20 +186,42 @@ def execute(desc, ctx):
 
     # (1) fixed point
     if p:
-        ctx.check(t1 == t2, 'fixed_point', f'export(parse(export(m))) != export(m) with preserve_ids=True: {_first_text_diff(t1, t2)}',
-                  opts=opts, field='text')
+        if t1 != t2:
+            ctx.fail('fixed_point', f'export(parse(export(m))) != export(m) with preserve_ids=True: {_first_text_diff(t1, t2)}',
+                     opts=opts, field='text', negzero_only=_NEGZERO.sub('0', t1) == _NEGZERO.sub('0', t2))
     else:
         r1 = vmfgen.renumber_ids(kv1)
         r2 = vmfgen.renumber_ids(t2)
         if r1 != r2:
             ctx.fail('fixed_point_renumbered', 'exports differ beyond a consistent renumbering of ids (preserve_ids=False): '
-                     f'{_first_tree_diff(r1, r2)}\n{_first_text_diff(t1, t2)}', opts=opts, field='text')
+                     f'{_first_tree_diff(r1, r2)}\n{_first_text_diff(t1, t2)}', opts=opts, field='text',
+                     negzero_only=vmfgen.renumber_ids(_NEGZERO.sub('0', t1)) == vmfgen.renumber_ids(_NEGZERO.sub('0', t2)))
     return stats
+
+
+# A number token "-0" (what format_float() prints for values in (-5e-7, 0)); re-read it is -0.0 and printed as "0".
+_NEGZERO = re.compile(r'(?<![\w.+-])-0(?![\w.])')
+
+
+def _has_tiny_negative(obj) -> bool:
+    if isinstance(obj, float):
+        return -5e-7 <= obj < 0
+    if isinstance(obj, dict):
+        return any(_has_tiny_negative(v) for v in obj.values())
+    if isinstance(obj, list):
+        return any(_has_tiny_negative(v) for v in obj)
+    return False
+
+
+def match_negzero_text(desc, clause, facts) -> bool:
+    """Open finding (root cause owned by C05, pinned by tests/test_vec.py): a generated number in (-5e-7, 0) - or a sample file -
+    is exported as "-0", which re-exports as "0"; matches only when that is the *only* difference between the two exports."""
+    return (clause in ('fixed_point', 'fixed_point_renumbered') and facts.get('negzero_only') is True
+            and ('file' in desc or _has_tiny_negative(desc)))
 
 
 def _field(path: str) -> str:
     """Last attribute name of a walker path ('entities[0].solids[1].group_id' -> 'group_id')."""
-    import re
     names = re.findall(r'[A-Za-z_]+', path)
     return names[-1] if names else ''
 
@@ -222,23 +245,23 @@ exec_whole = _mk(lambda s: (s['brush_ents'] or s['disps']) and (s['outputs'] or 
 
 
 SUBCHECKS = [
-    Sub('keyvalues', exec_keyvalues, strategy=_strat(cfg_keyvalues, min_ents=1), quick=1200, thorough=80000, floor=150,
+    Sub('keyvalues', exec_keyvalues, strategy=_strat(cfg_keyvalues, min_ents=1), quick=800, thorough=80000, floor=150,
         must_hit=('hidden_ents', 'comments', 'logical_pos', 'nasty_keys', 'nasty_values', 'nodeid', 'preserve_ids', 'renumber_ids')),
-    Sub('outputs', exec_outputs, strategy=_strat(cfg_outputs, min_ents=1), quick=1200, thorough=80000, floor=150,
+    Sub('outputs', exec_outputs, strategy=_strat(cfg_outputs, min_ents=1), quick=800, thorough=80000, floor=150,
         must_hit=('outputs', 'out_comma', 'out_esc_sep', 'inst_out', 'inst_in')),
-    Sub('fixups', exec_fixups, strategy=_strat(cfg_fixups, min_ents=1), quick=1000, thorough=60000, floor=150,
+    Sub('fixups', exec_fixups, strategy=_strat(cfg_fixups, min_ents=1), quick=600, thorough=60000, floor=150,
         must_hit=('fixups', 'nasty_fixup_vars')),
-    Sub('membership', exec_membership, strategy=_strat(cfg_membership), quick=800, thorough=40000, floor=100,
+    Sub('membership', exec_membership, strategy=_strat(cfg_membership), quick=600, thorough=40000, floor=100,
         must_hit=('ent_groups', 'ent_vis', 'solid_groups', 'groups', 'visgroups', 'hidden_ents', 'hidden_solids', 'opt_minimal')),
-    Sub('brushes', exec_brushes, strategy=_strat(cfg_brushes), quick=800, thorough=40000, floor=100,
+    Sub('brushes', exec_brushes, strategy=_strat(cfg_brushes), quick=500, thorough=40000, floor=100,
         must_hit=('prisms', 'raw_solids', 'hidden_solids', 'world_brushes', 'brush_ents', 'strata_points', 'nasty_mats')),
-    Sub('displacements', exec_disps, strategy=_strat(cfg_disps), quick=500, thorough=16000, floor=60,
+    Sub('displacements', exec_disps, strategy=_strat(cfg_disps), quick=400, thorough=16000, floor=60,
         must_hit=('disps', 'multiblend_disps', 'disp_power_1', 'disp_power_2', 'opt_no_multiblend')),
-    Sub('meta', exec_meta, strategy=_strat(cfg_meta), quick=800, thorough=40000, floor=100,
+    Sub('meta', exec_meta, strategy=_strat(cfg_meta), quick=600, thorough=40000, floor=100,
         must_hit=('visgroups', 'nested_visgroups', 'cameras', 'cordons', 'viewports', 'inst_vis', 'opt_minimal')),
-    Sub('whole', exec_whole, strategy=_strat(cfg_whole), quick=400, thorough=30000, floor=30,
+    Sub('whole', exec_whole, strategy=_strat(cfg_whole), quick=300, thorough=30000, floor=30,
         must_hit=('brush_ents', 'disps', 'outputs', 'fixups', 'visgroups', 'groups', 'opt_minimal', 'opt_no_multiblend')),
     Sub('samples', _mk(lambda s: True), fixed=sample_cases, floor=1, must_hit=('sample',), quick_shards=1, thorough_shards=1),
 ]
 
-MATCHERS = {}
+MATCHERS = {'negzero_text': match_negzero_text}
